@@ -70,7 +70,9 @@ def hostile_headers(rng, kind):
         elif m == 10:
             h.insert(pos, (b'x-ws', rng.choice([b' v', b'v ', b'\tv', b'v\t', b' '])))
         elif m == 11:
-            h.insert(pos, (b'content-length', rng.choice([b'0', b'5', b'-1', b'abc', b'', b'99999999999999999999'])))
+            # numbers in odd shapes, incl. digit strings beyond what the interpreter converts without complaint (4300 digits)
+            h.insert(pos, (b'content-length', rng.choice([b'0', b'5', b'-1', b'abc', b'', b'99999999999999999999', b'+5', b' 5', b'5 ', b'1_0',
+                                                          b'\xd9\xa3', b'1' * 4300, b'1' * 4301, b'7' * 6000, b'0' * 5000])))
         elif m == 12:
             h.insert(pos, (b'host', rng.choice([b'example.com', b'other', b''])))
         elif m == 13:
